@@ -326,6 +326,73 @@ def exchange_policy(ctx, rng):
             rs.close()
 
 
+def browser_session_flows(ctx, rng):
+    """A later authorization request from the same browser (the provider's session cookie is presented) releases what
+    ITS OWN scope and claims parameter authorise - not what an earlier request of that browser session asked for."""
+    from idpyoidc.server.scopes import SCOPE2CLAIMS
+    users = json.load(open(srv.USERS))
+    for jwt in (False, True):
+        rs = sess.RealSession(oidc=True, jwt_access=jwt)
+        try:
+            for point in POINTS:
+                mod = module_of(rs.server, point)
+                mod.kwargs["add_claims_by_scope"] = True
+                mod.kwargs["always_add_claims"] = []
+                mod.kwargs["enable_claims_per_client"] = False
+            first_claims = {"userinfo": {"email": None, "phone_number": None}, "id_token": {"nickname": None}}
+            for c in ("client_1", "client_2"):
+                u = "diana"
+                nonce = "n-%s-%d" % (c, int(jwt))
+                base = {"state": "browser-state", "nonce": nonce}
+                o1 = rs.op_authz(u, c, ["openid"], extra=dict(base, claims=first_claims))
+                ck = rs.last_cookie
+                if o1[0] != "ok" or not ck:
+                    ctx.notes.append("browser_session_flows: first request failed %r" % (o1,))
+                    continue
+                variants = [("same-without-claims", ["openid"], None), ("same-other-claims", ["openid"], {"userinfo": {"nickname": None}}),
+                            ("other-scope", ["openid", "email"], None)]
+                for vname, scopes, claims in variants:
+                    extra = dict(base)
+                    if claims:
+                        extra["claims"] = claims
+                    o2 = rs.op_authz(u, c, scopes, extra=extra, cookie=ck)
+                    ck = rs.last_cookie or ck
+                    if o2[0] != "ok" or not o2[1]:
+                        ctx.count("browser-session:%s:refused" % vname)
+                        continue
+                    code = o2[1][0]
+                    rs.run(("tparse", c, ("tok", code), "same"))
+                    p = rs.run(("proc", len(rs.parsed) - 1, None))
+                    if p[0] != "ok":
+                        continue
+                    at = p[1]["access_token"]
+                    views = {}
+                    ui = rs.ep["userinfo"]
+                    views["userinfo"] = dict(ui.process_request(ui.parse_request({}, http_info={"headers": {"authorization": "Bearer " + rs.tokens[at]}}))["response_args"])
+                    views["id_token"] = jwt_payload(rs.tokens[p[1]["id_token"]])
+                    if jwt:
+                        views["access_token"] = jwt_payload(rs.tokens[at])
+                    allowed = rs.ctx.cdb[c].get("allowed_scopes", list(SCOPE2CLAIMS.keys()))
+                    rec = {"browser_session": True, "variant": vname, "client": c, "scopes": scopes, "claims_request": claims,
+                           "earlier_claims_request": first_claims,
+                           "released": {k: sorted(x for x in v if x in users[u]) for k, v in views.items()}}
+                    ctx.case_seen(rec, True)
+                    ctx.count("browser-session:%s" % vname)
+                    for point, payload in views.items():
+                        b = set()
+                        for sc in scopes:
+                            if sc in allowed:
+                                b |= set(SCOPE2CLAIMS.get(sc, []))
+                        if claims and point in claims:
+                            b |= set(claims[point])
+                        attrs = {k for k in payload if k in users[u] and k not in PROTOCOL}
+                        if attrs - b:
+                            ctx.violation("e2e-beyond-bound", "%s of a later request of the browser session (%s) contains %r beyond what that request authorises %r"
+                                          % (point, vname, sorted(attrs - b), sorted(b)), rec)
+        finally:
+            rs.close()
+
+
 def order_independence(ctx, rng, n_orders):
     """What a flow releases does not depend on the flows processed before it: flows of different response types
     for one client (per-client always-add claims, secondary release point for response_type=id_token) in every
@@ -397,6 +464,7 @@ def run(ctx):
     unit_cases(ctx, ctx.rng, 400 if ctx.quick else 12000)
     e2e(ctx, ctx.rng, 3 if ctx.quick else 40)
     exchange_policy(ctx, ctx.rng)
+    browser_session_flows(ctx, ctx.rng)
 
 
 def replay(ctx, rp):
